@@ -31,7 +31,10 @@ let parse_cfg (cf : string) =
       | None -> cf, admin_s in
     let flags = Stdlib.String.sub cf 0 3 and rest = Stdlib.String.sub cf 3 (Stdlib.String.length cf - 3) in
     let fail, rest = if rest <> "" && rest.[0] = 'f' then true, Stdlib.String.sub rest 1 (Stdlib.String.length rest - 1) else false, rest in
-    let over = if Stdlib.String.length rest = 2 && rest.[0] = '~' then Some (Stdlib.String.sub rest 1 1) else if rest = "" then Some "" else None in
+    (* "~T": overlap produced above the repository, "~sT": below it (slow SQL); the model does not distinguish them *)
+    let over = if Stdlib.String.length rest = 2 && rest.[0] = '~' then Some (Stdlib.String.sub rest 1 1)
+      else if Stdlib.String.length rest = 3 && rest.[0] = '~' && rest.[1] = 's' then Some (Stdlib.String.sub rest 2 1)
+      else if rest = "" then Some "" else None in
     match over with
     | None -> None
     | Some over -> Some (flags.[0] = '1', flags.[1] = '1', flags.[2] = '1', fail, over, adm)
@@ -79,6 +82,7 @@ let held_hdr c = coq_of_string (subst (string_of_coq c.admin) ("Bearer $" ^ c.ov
 let model input =
   match parse input with
   | None -> "BAD-INPUT"
+  | Some c when c.meth = "SETUP" -> "SETUP-OK"   (* every fixture step succeeds on a correct implementation *)
   | Some c ->
     let admin = c.admin in
     let r = route c in
@@ -98,6 +102,8 @@ let model input =
 let spec input obs =
   match parse input with
   | None -> "FAIL malformed-input"
+  | Some c when c.meth = "SETUP" ->
+    if obs = "SETUP-OK" then "OK" else "FAIL fixture-step-failed " ^ obs
   | Some c ->
     let admin = c.admin in
     let r = route c in
